@@ -8,6 +8,22 @@ namespace PB.Managed
 theorem recovered_ne_nil (v : PCls) : recovered v ≠ .nil := by
   cases v <;> simp [recovered]
 
+/-! ### the decision of the service-worker loop, evaluated on the regenerated case list -/
+
+theorem svcDecide_nil : svcDecide .nil = .finished := by decide
+theorem svcDecide_err : svcDecide .err = .backoff := by decide
+theorem svcDecide_canceled : svcDecide .canceled = .finished := by decide
+theorem svcDecide_restart : svcDecide .restart = .restartNow := by decide
+
+/-- A panic error matches none of the sentinels, whatever the panic value is: back-off restart. -/
+theorem svcDecide_panicErr (rp : Report) : svcDecide (.panicErr rp) = .backoff := by
+  have h : panicErrOpaque = true := by decide
+  simp [svcDecide, PB.Gen.Managed.svcSwitch, svcDecideIn, svcCond, svcActOf, Ret.is, Ret.isNil, h]
+
+theorem panicErr_is_no_sentinel (rp : Report) (s : Sentinel) : (Ret.panicErr rp).is s = false := by
+  have h : panicErrOpaque = true := by decide
+  simp [Ret.is, h]
+
 /-! ### sums -/
 
 theorem sumBy_append (f : Item → Int) (l₁ l₂ : List Item) :
@@ -108,6 +124,7 @@ theorem done_contrib (it : Item) (h : it.done = true) :
 @[simp] theorem take_ret (it : Item) : it.take.ret = it.ret := by unfold Item.take; split <;> rfl
 @[simp] theorem take_cret (it : Item) : it.take.cret = it.cret := by unfold Item.take; split <;> rfl
 @[simp] theorem take_http (it : Item) : it.take.http = it.http := by unfold Item.take; split <;> rfl
+@[simp] theorem take_detail (it : Item) : it.take.detail = it.detail := by unfold Item.take; split <;> rfl
 @[simp] theorem take_executing (it : Item) : it.take.executing = it.executing := by unfold Item.take; split <;> rfl
 @[simp] theorem take_canceled (it : Item) : it.take.canceled = it.canceled := by unfold Item.take; split <;> rfl
 @[simp] theorem take_hasFn (it : Item) : it.take.hasFn = it.hasFn := by unfold Item.take; split <;> rfl
@@ -210,11 +227,21 @@ theorem itemStep_rep_panic {env : Env} {it it' : Item} {ch : Bool} {e : Eff}
   all_goals (cases h; simp at hr)
   all_goals (subst hr)
   all_goals (first
-    | (rename_i hh; obtain ⟨v, _, rfl, _⟩ := recoverRet_some hh; simp [panicReport, recovered_ne_nil]; done)
-    | (rename_i hh; obtain ⟨v, _, rfl, _⟩ := recoverCtrl_some hh; simp [panicReport, recovered_ne_nil]; done)
+    | (obtain ⟨v, _, rfl, _⟩ := recoverRet_some ‹recoverRet _ _ = (_, some _)›; simp [panicReport, recovered_ne_nil]; done)
+    | (obtain ⟨v, _, rfl, _⟩ := recoverCtrl_some ‹recoverCtrl _ = (_, some _)›; simp [panicReport, recovered_ne_nil]; done)
     | (simp [panicReport, recovered_ne_nil]; done))
 
 /-! ### item-local invariant: what an item has recorded agrees with what its function did -/
+
+/-- Last pc of the program of each kind. -/
+def Item.pcMax (it : Item) : Nat :=
+  match it.kind with
+  | .runWorker | .startWorker | .hook | .api _ _ => 5
+  | .svc => 7
+  | .task => 8
+  | .mt _ => 7
+  | .ctrl => 6
+  | .stop => 9
 
 structure Item.Local (it : Item) : Prop where
   /-- every panic of the function has been reported, or is about to be by the pending recover block -/
@@ -223,15 +250,18 @@ structure Item.Local (it : Item) : Prop where
   retW : (it.kind = .runWorker ∨ it.kind = .startWorker ∨ it.kind = .hook) → 3 ≤ it.pc →
     it.ret = some (recoverRet .worker it.cur).1
   retM : ∀ b, it.kind = .mt b → 4 ≤ it.pc → it.ret = some (recoverRet .microtask it.cur).1
-  api : ∀ aw, it.kind = .api aw → 3 ≤ it.pc → it.ret = some .nil ∧ it.http = httpStatus aw it.cur
+  api : ∀ aw dev, it.kind = .api aw dev → 3 ≤ it.pc → it.ret = some .nil ∧ it.http = httpStatus aw it.cur ∧
+    (it.cur.isPanic = true → it.detail = dev)
   exec : it.kind = .task → (it.executing = true ↔ 1 ≤ it.pc ∧ it.pc ≤ 6)
   cretC : it.kind = .ctrl → it.hasFn = true → 3 ≤ it.pc → it.cret = some (recoverCtrl it.cur).1
   cretS : it.kind = .stop → it.hasFn = true → 6 ≤ it.pc → it.cret = some (recoverCtrl it.cur).1
+  /-- the program counter stays within the program -/
+  bound : it.pc ≤ it.pcMax
 
 theorem fresh_local (it : Item) (h : it.fresh = true) : it.Local := by
   simp [Item.fresh] at h
   obtain ⟨⟨⟨⟨⟨⟨h1, h2⟩, h3⟩, h4⟩, h5⟩, h6⟩, h7⟩ := h
-  constructor <;> simp_all [Item.pendingReport]
+  constructor <;> simp_all [Item.pendingReport, Item.pcMax]
   · split <;> simp <;> split <;> simp
 
 theorem isPanic_false_of_ne {o : Outcome} (h : ∀ v, ¬ o = .panic v) : o.isPanic = false := by
@@ -274,11 +304,13 @@ theorem itemStep_retM {env : Env} {it it' : Item} {ch : Bool} {e : Eff}
 
 theorem itemStep_api {env : Env} {it it' : Item} {ch : Bool} {e : Eff}
     (h : itemStep env it ch = some (it', e))
-    (hl : ∀ aw, it.kind = .api aw → 3 ≤ it.pc → it.ret = some .nil ∧ it.http = httpStatus aw it.cur) :
-    ∀ aw, it'.kind = .api aw → 3 ≤ it'.pc → it'.ret = some .nil ∧ it'.http = httpStatus aw it'.cur := by
+    (hl : ∀ aw dev, it.kind = .api aw dev → 3 ≤ it.pc → it.ret = some .nil ∧ it.http = httpStatus aw it.cur ∧
+      (it.cur.isPanic = true → it.detail = dev)) :
+    ∀ aw dev, it'.kind = .api aw dev → 3 ≤ it'.pc → it'.ret = some .nil ∧ it'.http = httpStatus aw it'.cur ∧
+      (it'.cur.isPanic = true → it'.detail = dev) := by
   item_cases_cur h it
   all_goals (cases h)
-  all_goals (simp_all [httpStatus])
+  all_goals (simp_all [httpStatus, Outcome.isPanic])
 
 theorem itemStep_exec {env : Env} {it it' : Item} {ch : Bool} {e : Eff}
     (h : itemStep env it ch = some (it', e))
@@ -304,10 +336,30 @@ theorem itemStep_cretS {env : Env} {it it' : Item} {ch : Bool} {e : Eff}
   all_goals (cases h)
   all_goals (simp_all [recoverCtrl, recovered_ne_nil])
 
+theorem itemStep_bound {env : Env} {it it' : Item} {ch : Bool} {e : Eff}
+    (h : itemStep env it ch = some (it', e)) : it'.pc ≤ it'.pcMax := by
+  item_cases h
+  all_goals (cases h; simp_all [Item.pcMax])
+
 theorem itemStep_local {env : Env} {it it' : Item} {ch : Bool} {e : Eff}
     (h : itemStep env it ch = some (it', e)) (hl : it.Local) : it'.Local :=
   ⟨itemStep_bal h hl.bal, itemStep_retW h hl.retW, itemStep_retM h hl.retM, itemStep_api h hl.api,
-   itemStep_exec h hl.exec, itemStep_cretC h hl.cretC, itemStep_cretS h hl.cretS⟩
+   itemStep_exec h hl.exec, itemStep_cretC h hl.cretC, itemStep_cretS h hl.cretS, itemStep_bound h⟩
+
+/-- Nothing in an item program waits for anything but the user function — except a control routine for the
+    module's control slot (pc 0) : an unfinished item can take its next step (timer choice in the back-off select). -/
+theorem itemStep_enabled (env : Env) (it : Item) (hb : it.pc ≤ it.pcMax) (hd : it.done = false)
+    (hc : (it.kind = .ctrl ∨ it.kind = .stop) → it.pc = 0 → env.ctrlFree = true) :
+    ∃ it' e, itemStep env it false = some (it', e) := by
+  unfold Item.pcMax at hb
+  unfold Item.done at hd
+  unfold itemStep workerStep svcStep taskStep mtStep ctrlStep stopStep
+  cases hk : it.kind <;> simp only [hk] at hb hd hc ⊢
+  all_goals (
+    have hpc : it.pc = 0 ∨ it.pc = 1 ∨ it.pc = 2 ∨ it.pc = 3 ∨ it.pc = 4 ∨ it.pc = 5 ∨ it.pc = 6 ∨ it.pc = 7 ∨ it.pc = 8 := by
+      simp at hd; omega
+    rcases hpc with h | h | h | h | h | h | h | h | h <;> simp [h] at hd hc ⊢)
+  all_goals (first | done | (repeat' split) <;> simp_all)
 
 theorem itemStep_check_only {env : Env} {it it' : Item} {ch : Bool} {e : Eff}
     (h : itemStep env it ch = some (it', e)) (hc : e.check = true) :
@@ -328,33 +380,85 @@ theorem itemStep_svc {env : Env} {it it' : Item} {ch : Bool} {e : Eff}
     5 ≤ it'.pc → env.stopFlag = true ∨ env.ctxDone = true ∨ it'.cur.restarts = false := by
   item_cases_cur h it
   all_goals (cases h)
-  all_goals (simp_all [Outcome.restarts])
+  all_goals (simp_all [Outcome.restarts, recoverRet, recovered_ne_nil])
 
 /-! ### the shared state -/
 
-@[simp] theorem report_w (s : St) (r : Report) : (s.report r).w = s.w := by unfold St.report; split <;> rfl
-@[simp] theorem report_t (s : St) (r : Report) : (s.report r).t = s.t := by unfold St.report; split <;> rfl
-@[simp] theorem report_m (s : St) (r : Report) : (s.report r).m = s.m := by unfold St.report; split <;> rfl
-@[simp] theorem report_g (s : St) (r : Report) : (s.report r).g = s.g := by unfold St.report; split <;> rfl
-@[simp] theorem report_c (s : St) (r : Report) : (s.report r).c = s.c := by unfold St.report; split <;> rfl
-@[simp] theorem report_items (s : St) (r : Report) : (s.report r).items = s.items := by unfold St.report; split <;> rfl
-@[simp] theorem report_stopFlag (s : St) (r : Report) : (s.report r).stopFlag = s.stopFlag := by unfold St.report; split <;> rfl
-@[simp] theorem report_ctxDone (s : St) (r : Report) : (s.report r).ctxDone = s.ctxDone := by unfold St.report; split <;> rfl
+@[simp] theorem report_w (s : St) (r : Report) : (s.report r).w = s.w := by unfold St.report; (repeat' split) <;> rfl
+@[simp] theorem report_t (s : St) (r : Report) : (s.report r).t = s.t := by unfold St.report; (repeat' split) <;> rfl
+@[simp] theorem report_m (s : St) (r : Report) : (s.report r).m = s.m := by unfold St.report; (repeat' split) <;> rfl
+@[simp] theorem report_g (s : St) (r : Report) : (s.report r).g = s.g := by unfold St.report; (repeat' split) <;> rfl
+@[simp] theorem report_c (s : St) (r : Report) : (s.report r).c = s.c := by unfold St.report; (repeat' split) <;> rfl
+@[simp] theorem report_items (s : St) (r : Report) : (s.report r).items = s.items := by unfold St.report; (repeat' split) <;> rfl
+@[simp] theorem report_stopFlag (s : St) (r : Report) : (s.report r).stopFlag = s.stopFlag := by unfold St.report; (repeat' split) <;> rfl
+@[simp] theorem report_ctxDone (s : St) (r : Report) : (s.report r).ctxDone = s.ctxDone := by unfold St.report; (repeat' split) <;> rfl
 @[simp] theorem report_stopCompleted (s : St) (r : Report) : (s.report r).stopCompleted = s.stopCompleted := by
-  unfold St.report; split <;> rfl
-@[simp] theorem report_cap (s : St) (r : Report) : (s.report r).cap = s.cap := by unfold St.report; split <;> rfl
-@[simp] theorem report_last (s : St) (r : Report) : (s.report r).last = some r := by unfold St.report; split <;> rfl
+  unfold St.report; (repeat' split) <;> rfl
+@[simp] theorem report_chanSet (s : St) (r : Report) : (s.report r).chanSet = s.chanSet := by
+  unfold St.report; (repeat' split) <;> rfl
+@[simp] theorem report_cap (s : St) (r : Report) : (s.report r).cap = s.cap := by unfold St.report; (repeat' split) <;> rfl
+@[simp] theorem report_last (s : St) (r : Report) : (s.report r).last = some r := by unfold St.report; (repeat' split) <;> rfl
 
 theorem report_count (s : St) (r : Report) :
     (s.report r).feed.length + (s.report r).dropped = s.feed.length + s.dropped + 1 := by
-  unfold St.report; split <;> simp <;> omega
+  unfold St.report; (repeat' split) <;> simp <;> omega
 
-theorem report_cap_inv (s : St) (r : Report) (h : s.feed.length ≤ s.cap ∧ (s.dropped = 0 ∨ s.feed.length = s.cap)) :
-    (s.report r).feed.length ≤ (s.report r).cap ∧ ((s.report r).dropped = 0 ∨ (s.report r).feed.length = (s.report r).cap) := by
-  unfold St.report; split <;> simp <;> omega
+/-- The state of the reporting channel: the consumer has received a prefix of what was delivered, the rest fits
+    into the buffer, consumers are parked only at an empty buffer, and a report is lost only without a channel
+    or after at least `cap` reports were delivered. -/
+def St.ChanInv (s : St) : Prop :=
+  s.taken ≤ s.feed.length ∧ s.feed.length ≤ s.taken + s.cap ∧ (0 < s.waiting → s.taken = s.feed.length) ∧
+  (s.dropped = 0 ∨ s.chanSet = false ∨ s.cap ≤ s.feed.length)
 
+theorem report_cap_inv (s : St) (r : Report) (h : s.ChanInv) : (s.report r).ChanInv := by
+  obtain ⟨h1, h2, h3, h4⟩ := h
+  unfold St.report
+  cases hc : s.chanSet
+  · simp only [Bool.not_false, if_true]
+    exact ⟨h1, h2, h3, Or.inr (Or.inl (by simp))⟩
+  · simp only [hc, Bool.not_true, Bool.false_eq_true, if_false] at h4 ⊢
+    have h4' : s.dropped = 0 ∨ s.cap ≤ s.feed.length := by
+      rcases h4 with h | h | h
+      · exact Or.inl h
+      · cases h
+      · exact Or.inr h
+    by_cases hw : 0 < s.waiting
+    · have := h3 hw
+      simp only [hw, if_true]
+      refine ⟨by simp; omega, by simp; omega, by simp; omega, ?_⟩
+      rcases h4' with h | h
+      · exact Or.inl h
+      · exact Or.inr (Or.inr (by simp; omega))
+    · simp only [hw, if_false]
+      by_cases hr : s.feed.length < s.taken + s.cap
+      · simp only [hr, if_true]
+        refine ⟨by simp; omega, by simp; omega, by simp; omega, ?_⟩
+        rcases h4' with h | h
+        · exact Or.inl h
+        · exact Or.inr (Or.inr (by simp; omega))
+      · simp only [hr, if_false]
+        exact ⟨h1, h2, h3, Or.inr (Or.inr (by simp; omega))⟩
 theorem report_feed_mem (s : St) (r x : Report) (h : x ∈ (s.report r).feed) : x ∈ s.feed ∨ x = r := by
-  unfold St.report at h; split at h <;> simp at h <;> simp [h]
+  unfold St.report at h; (repeat' split at h) <;> simp at h <;> simp [h]
+
+/-- With room (or a parked consumer) the report is delivered: it is appended to the feed, nothing is dropped. -/
+theorem report_delivered (s : St) (r : Report) (h : s.canSend = true) :
+    (s.report r).feed = s.feed ++ [r] ∧ (s.report r).dropped = s.dropped := by
+  unfold St.canSend at h
+  unfold St.report
+  (repeat' split) <;> simp_all
+
+/-- Without room the report is dropped: the feed is unchanged; only `lastReportedError` keeps it. -/
+theorem report_dropped (s : St) (r : Report) (h : s.canSend = false) :
+    (s.report r).feed = s.feed ∧ (s.report r).dropped = s.dropped + 1 ∧ (s.report r).last = some r := by
+  unfold St.canSend at h
+  unfold St.report
+  (repeat' split) <;> simp_all
+
+/-- The send in `Report()` is the non-blocking one (regenerated from the source): reporting never blocks. -/
+theorem reportBlocks_false (s : St) : s.reportBlocks = false := by
+  have h : reportSendBlocking = false := by decide
+  simp [St.reportBlocks, h]
 
 @[simp] theorem check_w (s : St) : s.check.w = s.w := by unfold St.check; split <;> (try split) <;> rfl
 @[simp] theorem check_t (s : St) : s.check.t = s.t := by unfold St.check; split <;> (try split) <;> rfl
@@ -366,6 +470,7 @@ theorem report_feed_mem (s : St) (r x : Report) (h : x ∈ (s.report r).feed) : 
 @[simp] theorem check_ctxDone (s : St) : s.check.ctxDone = s.ctxDone := by unfold St.check; split <;> (try split) <;> rfl
 @[simp] theorem check_feed (s : St) : s.check.feed = s.feed := by unfold St.check; split <;> (try split) <;> rfl
 @[simp] theorem check_dropped (s : St) : s.check.dropped = s.dropped := by unfold St.check; split <;> (try split) <;> rfl
+@[simp] theorem check_chanSet (s : St) : s.check.chanSet = s.chanSet := by unfold St.check; split <;> (try split) <;> rfl
 @[simp] theorem check_cap (s : St) : s.check.cap = s.cap := by unfold St.check; split <;> (try split) <;> rfl
 @[simp] theorem check_last (s : St) : s.check.last = s.last := by unfold St.check; split <;> (try split) <;> rfl
 
